@@ -41,7 +41,8 @@ def oracle(inp):
   dk = gpgen.kernel_entry_error(inp)
   ex = gpgen.reference_posterior.extra
   # forward error of the Cholesky solves: |da| <~ eps*cond*|a|, hence |dmean| <~ alpha*eps*cond*|a|_1 (same for the cardinal functions)
-  tol_m = 1e-14 * cond * (alpha * ex["a_l1"] + float(numpy.abs(rm).max()) + scale) + 4 * dk * ex["a_l1"] + 1e-9 * scale
+  tol_m = (1e-14 * cond * (alpha * ex["a_l1"] + float(numpy.abs(rm).max()) + scale) + 4 * dk * ex["a_l1"] + 1e-9 * scale
+           + 1e-14 * ex["gls_cond"] * (1 + cond * 1e-6) * ex["pb_l1"])   # forward error of the GLS coefficient solve (nearly collinear polynomial columns)
   tol_v = 1e-14 * cond * alpha * (1 + ex["card_l1"]) ** 2 + 8 * dk * ex["card_l1"] + 1e-9 * alpha
   mean = gp.compute_mean_of_points(xs)
   var = gp.compute_variance_of_points(xs)
@@ -82,7 +83,13 @@ def oracle(inp):
     from libsigopt.compute.gaussian_process_sum import GaussianProcessSum
     inp3 = dict(inp, values=inp["values2"])
     gpb = gpgen.make_gp(inp3)
-    s = GaussianProcessSum([gp, gpb], w)
+    if inp.get("weights_inplace"):   # the sum holds the caller's weight array by reference: it predicts with the weights that array holds NOW
+      warr = numpy.array([wi * 3.0 + 1.0 for wi in w], dtype=float)
+      s = GaussianProcessSum([gp, gpb], warr)
+      _ = s.compute_variance_of_points(xs), s.compute_covariance_of_points(xs)
+      warr[:] = w
+    else:
+      s = GaussianProcessSum([gp, gpb], w)
     mb, vb, cb = gpb.compute_mean_of_points(xs), gpb.compute_variance_of_points(xs), gpb.compute_covariance_of_points(xs)
     sm, sv = s.compute_mean_and_variance_of_points(xs)
     if numpy.abs(sm - (w[0] * mean + w[1] * mb)).max() > 1e-10 * scale or numpy.abs(s.compute_mean_of_points(xs) - sm).max() > 1e-10 * scale:
@@ -109,7 +116,8 @@ def oracle(inp):
     inp4 = dict(inp, points=inp["points"] + lies, values=inp["values"] + [worst] * len(lies), noise=inp["noise"] + [1e-12] * len(lies))
     rm4, rv4, _, cond4 = gpgen.reference_posterior(inp4)
     ex4, dk4 = gpgen.reference_posterior.extra, gpgen.kernel_entry_error(inp4)   # the same justified bound as tol_m, for the extended data set
-    t4 = 1e-14 * cond4 * (alpha * ex4["a_l1"] + float(numpy.abs(rm4).max()) + scale) + 4 * dk4 * ex4["a_l1"] + 1e-9 * scale + tol_m
+    t4 = (1e-14 * cond4 * (alpha * ex4["a_l1"] + float(numpy.abs(rm4).max()) + scale) + 4 * dk4 * ex4["a_l1"] + 1e-9 * scale + tol_m
+          + 1e-14 * ex4["gls_cond"] * (1 + cond4 * 1e-6) * ex4["pb_l1"])
     if numpy.abs(gp.compute_mean_of_points(xs) - rm4).max() > t4:
       return fail("after append_lie_data the mean is not the posterior of the extended data", gp.compute_mean_of_points(xs).tolist(), rm4.tolist())
   return None
@@ -130,6 +138,7 @@ def gen_input(rng):
     elif style < 0.4:
       inp["weights"] = [rng.choice([-2.0, 1e-16]), rng.choice([-0.3, 1e-20])]
     inp["values2"] = [rng.uniform(-1, 1) for _ in range(n)]
+    inp["weights_inplace"] = rng.random() < 0.3
   if rng.random() < 0.3 and inp.get("tikhonov") is None:
     dim = len(inp["points"][0])
     inp["lies"] = [[rng.uniform(0, 1) for _ in range(dim)] for _ in range(rng.randint(1, 2))]
